@@ -160,4 +160,14 @@ theorem runF (c : UInt8) (f : Nat) : ∀ (fs : NFields) (d : Nat) (s : State), I
       cases s.needsLineTerminator <;> simp [textF, List.append_assoc]
 end
 
+/-- the bytes of a nested-object call list (= `C15_lexemes_nested`) -/
+theorem lexemes_nested (fs : NFields) (c : UInt8) (f : Nat) :
+    (run (ncallsF fs) (State.init c f)).1.out = textRoot c f fs := by
+  cases fs with
+  | nil => rfl
+  | cons k o v r =>
+    have hi : Inv (State.init c f) c f 0 := ⟨rfl, rfl, rfl, by simp [State.init], rfl, rfl⟩
+    have := (runF c f (.cons k o v r) 0 (State.init c f) hi (Or.inl rfl) (by intro h; cases h)).1
+    simpa [State.init, textRoot] using this
+
 end Jomini.Writer
